@@ -55,6 +55,10 @@ type Fault struct {
 	Kind  string `json:"kind"`            // fail | kill | eof
 	Bytes int    `json:"bytes,omitempty"` // read/write ops: bytes let through first (-1: before the op)
 	Errno string `json:"errno,omitempty"` // for fail
+	// Sticky: once fired on a file write, every later write to a regular file
+	// fails with the same errno and writes nothing (disk full, quota or file
+	// size limit reached: the condition persists for the rest of the run).
+	Sticky bool `json:"sticky,omitempty"`
 }
 
 // Knobs are the always-legal variations ("buggify") of the environment.
